@@ -225,6 +225,7 @@ class TPool(ClassModel):
             cf = kwargs.get("cancel_futures", args[1] if len(args) > 1 else SBool(False))
             st.ghost["pool_cancelled_pending"] = Or(st.ghost.get("pool_cancelled_pending", FALSE), ex.truth(cf, st))
             st.ghost["pool_shutdowns"] = st.ghost.get("pool_shutdowns", iv(0)) + 1
+            st.ghost["loop_left"] = True          # the main loop is over: the final wait for running handlers is not a heartbeat gap
             return [ex.res(st, NONE)]
         return None
 
